@@ -304,10 +304,14 @@ def copy_case(rng, k):
     L = ["case %d session copy" % k, "screen %d %d %d %d %d %d %d %d %d" % ((W, H) + fmt)] + \
         stride_line(rng, fmt[0]) + ["fb " + " ".join("%x" % p for r in fb for p in r)]
     cur = rand_cursor(rng, fmt, rng.choice(["rich", "rich", "x"]))
-    while cur.w == 0 or cur.h == 0:
-        # a cursor without pixels + CopyRect client + pending request: the library announces more rectangles than it
-        # sends (13 vs 7; notes/C15.md section 5, reported as a candidate for C02/C03 - stream framing is not C15's)
-        cur = rand_cursor(rng, fmt, rng.choice(["rich", "rich", "x"]))
+    if rng.random() < 0.12:
+        # a cursor without pixels: with a CopyRect client and a pending request the library used to announce more
+        # rectangles than it sent (C03-F26, fixed in /repo bdf836a); kept in every run
+        if rng.random() < 0.5:
+            cur.w, cur.src, cur.mask, cur.rich = 0, ([] if cur.src is not None else None), [], ([] if cur.rich is not None else None)
+        else:
+            cur.h, cur.src, cur.mask, cur.rich = 0, ([] if cur.src is not None else None), [], ([] if cur.rich is not None else None)
+        cur.alpha = None
     L += cur.lines() + ["setcur"]
     ncl = rng.choice([1, 1, 2])
     for i in range(ncl):
